@@ -1,7 +1,18 @@
+/-
+Helper lemmas (no property statements): the timing invariant of the composed controller against the ages of the
+specification monitor `Spec/TimingMon.lean`.
+ * events: the commands issued in a cycle (`evsOf`), characterised by which chooser accepted what (`any_bm`), and
+   shown equal to the strobes the multiplexer's timers see (`any_isAct`, `any_isCas`, `any_isWr`)
+ * `MInv` / `minv_step`  multiplexer level: tRRD, tFAW, tCCD, tWTR timers vs. ages; RD only with tWTR elapsed
+ * `adv_bank`            the monitor's per-bank ages move exactly as `BmTiming.bAdvance` says
+ * `all_allowed`         every issued command is allowed by the monitor (bank-machine, multiplexer and refresher rules)
+ * `tinv_step`           the composed invariant is inductive
+-/
 import LitedramVerif.Proofs.DfiLegal
 import LitedramVerif.Spec.TimingMon
 import LitedramVerif.Props.C03
 import LitedramVerif.Proofs.BmTiming
+import LitedramVerif.Proofs.RfTiming
 namespace CtlTiming
 open Controller Hw CtlInv TimingMon BmTiming
 
@@ -511,3 +522,364 @@ theorem adv_bank (c : Controller.Cfg) (s : State) (ins : Array BankIn) (m : St) 
   | cas ap =>
     have hw := cas_isWrite c s ins j ap hc
     cases hbw : (s.bms[j]!).buf.we <;> cases ap <;> simp [bmEv, hc, bAdvance, hw, hbw]
+
+
+/-! ### the composed timing invariant -/
+structure TInv (c : Controller.Cfg) (s : State) (g : Ghost) (m : St) : Prop where
+  mux : MInv c s m
+  bm : ∀ j, j < c.nbm → BInv c.bm s.bms[j]! (agesOf m j)
+  rt : RfTiming.RTInv c.rf s.rf m.prea m.ref m.zq
+  preEq : g.pd = true → ∀ j, j < c.nbm → m.pre j = m.prea
+  wrOld : g.pd = true → ∀ t, ok m.prea t = true → ok m.wrAny t = true
+  wrZq : s.rf.fsm = .doZqcs → ok m.wrAny (c.rf.tRP + c.rf.tRFC) = true
+  gnt : s.fsm = .refresh → ∀ j, j < c.nbm → ok (m.act j) (c.bm.tRAS.getD 0) = true ∧ ok (m.wr j) c.bm.twtp = true
+
+/-- configuration conditions of the timing theorem, on top of `WF2` -/
+structure WF3 (c : Controller.Cfg) : Prop where
+  wf2 : WF2 c
+  rp : c.rf.tRP = c.bm.tRP                       -- one tRP for bank machines and refresher (both are settings.timing.tRP)
+  wtr : c.twtr ≤ c.rf.tRP + c.rf.tRFC            -- a refresh lasts at least as long as the write-to-read turn-around
+  rpPos : 1 ≤ c.bm.tRP
+
+theorem rfEv_eq (c : Controller.Cfg) (s : State) : rfEv c s = RfTiming.evR c.rf s.rf (s.fsm == .refresh) := rfl
+
+theorem adv_prea (c : Controller.Cfg) (s : State) (ins : Array BankIn) (m : St) (q : Req) :
+    (advance q m (evsOf c s ins)).prea = RfTiming.upd m.prea (rfEv c s == some .prea) ∧
+    (advance q m (evsOf c s ins)).ref = RfTiming.upd m.ref (rfEv c s == some .ref) ∧
+    (advance q m (evsOf c s ins)).zq = RfTiming.upd m.zq (rfEv c s == some .zqc) := by
+  have key : ∀ (e0 : Ev), (e0 = .prea ∨ e0 = .ref ∨ e0 = .zqc) → (evsOf c s ins).any (· == e0) = (rfEv c s == some e0) := by
+    intro e0 he0
+    rw [Bool.eq_iff_iff, any_evsOf]
+    constructor
+    · rintro (⟨j, hj, e, he, hp⟩ | ⟨e, he, hp⟩)
+      · have hee : e = e0 := by simpa using hp
+        subst hee
+        rcases bmEv_bank c s ins j e he with h | h | ⟨ap, h⟩ | ⟨ap, h⟩ <;> rcases he0 with h0 | h0 | h0 <;> rw [h] at h0 <;> cases h0
+      · have hee : e = e0 := by simpa using hp
+        subst hee; simp [he]
+    · intro h
+      right
+      have : rfEv c s = some e0 := by simpa using h
+      exact ⟨e0, this, by simp⟩
+  refine ⟨?_, ?_, ?_⟩
+  · show (if (evsOf c s ins).any (· == .prea) then some 1 else tick m.prea) = _
+    rw [key .prea (Or.inl rfl)]; rfl
+  · show (if (evsOf c s ins).any (· == .ref) then some 1 else tick m.ref) = _
+    rw [key .ref (Or.inr (Or.inl rfl))]; rfl
+  · show (if (evsOf c s ins).any (· == .zqc) then some 1 else tick m.zq) = _
+    rw [key .zqc (Or.inr (Or.inr rfl))]; rfl
+
+/-- facts about the end of a refresh episode: when the refresher withdraws `valid` while executing, the precharge-all of
+this episode is at least tRP + min(tRFC, tZQCS) old, and so is the last write -/
+theorem episode_end (c : Controller.Cfg) (hwf : WF3 c) (s : State) (g : Ghost) (m : St) (hc : CInv c s g) (ht : TInv c s g m)
+    (hin : RefresherInv.inRef s.rf.fsm = true) (hv : (roOf c s).valid = false) :
+    g.pd = true ∧ ok m.prea c.bm.tRP = true ∧ ok m.wrAny c.twtr = true := by
+  have hpd := novalid_pd c.rf s.rf g.pd hc.rf hin hv
+  have hrp := hwf.rp
+  have hw := hwf.wtr
+  cases hfs : s.rf.fsm <;> simp [RefresherInv.inRef, hfs] at hin
+  · -- doRefresh: seqDone
+    have hsd : s.rf.exDone = true := by
+      simp only [roOf, Refresher.out, hfs, Refresher.seqDone] at hv
+      cases hx : s.rf.exDone
+      · simp [hx] at hv
+      · rfl
+    have h4 := ht.rt.r4 hfs hsd
+    refine ⟨hpd, ok_mono _ _ _ h4 (by omega), ok_mono _ _ _ (ht.wrOld hpd _ h4) hw⟩
+  · -- doZqcs: zqDone
+    have hzd : s.rf.zqDone = true := by
+      simp only [roOf, Refresher.out, hfs] at hv
+      cases hx : s.rf.zqDone
+      · simp [hx] at hv
+      · rfl
+    have h4 := ht.rt.z4 hfs hzd
+    refine ⟨hpd, ok_mono _ _ _ h4 (by omega), ok_mono _ _ _ (ht.wrZq hfs) hw⟩
+
+theorem bm_inactive_nop (c : Controller.Cfg) (s : State) (ins : Array BankIn) (j : Nat)
+    (h : s.fsm ≠ .read ∧ s.fsm ≠ .write) : cmdOfBm c s ins j = .nop := by
+  rw [cmdOfBm_eq, bmReady_inactive c s ins j h]; rfl
+
+theorem gnt_indep (c : BankMachine.Cfg) (sj : BankMachine.State) (i : BankMachine.In) :
+    (BankMachine.step c sj i).2.refreshGnt = (BankMachine.req c sj i.valid i.we i.addr i.refresh).refreshGnt := by
+  simp [BankMachine.step, BankMachine.req]
+
+/-- hypotheses of `binv_step` for bank machine `j`, from the controller invariants -/
+theorem bm_hyps (c : Controller.Cfg) (hwf : WF3 c) (s : State) (g : Ghost) (ins : Array BankIn) (m : St) (hc : CInv c s g)
+    (ht : TInv c s g m) (j : Nat) (hj : j < c.nbm) :
+    (preaOf c s = true → (s.bms[j]!).fsm = .refresh ∧ (bmIn c s ins j).refresh = true) ∧
+    ((s.bms[j]!).fsm = .refresh → (bmIn c s ins j).refresh = false → ok (agesOf m j).pre c.bm.tRP = true) := by
+  constructor
+  · intro hp
+    simp only [preaOf, RefresherInv.preaAcc, Bool.and_eq_true, beq_iff_eq] at hp
+    exact ⟨hc.muxRef hp.1.1.1.2 j hj, hp.1.1.1.1⟩
+  · intro hf hr
+    have hv : (roOf c s).valid = false := hr
+    have hni : s.rf.fsm ≠ .idle := fun hidle => (hc.idle hidle).2 j hj hf
+    have hnw : s.rf.fsm ≠ .waitBm := fun hw => by have := (out_waitBm c.rf s.rf hw).1; unfold roOf at hv; rw [hv] at this; cases this
+    have hin : RefresherInv.inRef s.rf.fsm = true := by
+      cases hfs : s.rf.fsm <;> simp_all [RefresherInv.inRef]
+    obtain ⟨hpd, hpre, _⟩ := episode_end c hwf s g m hc ht hin hv
+    show ok (m.pre j) c.bm.tRP = true
+    rw [ht.preEq hpd j hj]; exact hpre
+
+theorem active_of_cmd (c : Controller.Cfg) (s : State) (ins : Array BankIn) (j : Nat) (h : cmdOfBm c s ins j ≠ .nop) :
+    s.fsm = .read ∨ s.fsm = .write := by
+  refine Decidable.byContradiction fun hn => ?_
+  have : s.fsm ≠ .read ∧ s.fsm ≠ .write := by
+    constructor <;> (intro e; exact hn (by simp [e]))
+  exact h (bm_inactive_nop c s ins j this)
+
+theorem all_allowed (c : Controller.Cfg) (hwf : WF3 c) (s : State) (g : Ghost) (ins : Array BankIn) (m : St)
+    (hc : CInv c s g) (ht : TInv c s g m) :
+    (evsOf c s ins).all (allowed (reqOf c) m) = true := by
+  have hab := hwf.wf2.abits
+  rw [List.all_eq_true]
+  intro e he
+  rcases (mem_evsOf c s ins e).mp he with ⟨j, hj, hev⟩ | hev
+  · -- an event of bank machine j
+    obtain ⟨hp1, hp2⟩ := bm_hyps c hwf s g ins m hc ht j hj
+    have hb := (BmTiming.binv_step c.bm hwf.rpPos s.bms[j]! (bmIn c s ins j) (agesOf m j) (preaOf c s) (ht.bm j hj) hp1 hp2).1
+    have hcmd : BmTiming.cmdOfStep c.bm s.bms[j]! (bmIn c s ins j) = cmdOfBm c s ins j := rfl
+    rw [hcmd] at hb
+    have hact : s.fsm = .read ∨ s.fsm = .write := by
+      apply active_of_cmd c s ins j
+      intro hn; simp [bmEv, hn] at hev
+    have hnin : RefresherInv.inRef s.rf.fsm ≠ true := fun hi => by
+      have := hc.inRef hi; rcases hact with e | e <;> rw [e] at this <;> cases this
+    have href : ok m.ref c.rf.tRFC = true := ht.rt.r2 (fun ⟨e, _⟩ => hnin (by simp [RefresherInv.inRef, e]))
+    have hzq : ok m.zq (c.rf.tZQCS.getD 0) = true := ht.rt.z2 (fun ⟨e, _⟩ => hnin (by simp [RefresherInv.inRef, e]))
+    have hany : ∀ p : Ev → Bool, p e = true → (evsOf c s ins).any p = true := fun p hp => List.any_eq_true.mpr ⟨e, he, hp⟩
+    simp only [bmEv] at hev
+    cases hcm : cmdOfBm c s ins j with
+    | nop => simp [hcm] at hev
+    | act r =>
+      simp only [hcm, Option.some.injEq] at hev; subst hev
+      have hst : actStrobeOf c s ins = true := by rw [← any_isAct c hab]; exact hany isAct rfl
+      have hrrd := txage_ready _ _ _ ht.mux.rrd (act_gate c s ins hst).1
+      simp only [hcm, bAllowed, Bool.and_eq_true, Bool.or_eq_true, Bool.not_eq_true'] at hb
+      simp only [allowed, reqOf, Bool.and_eq_true, Bool.or_eq_true, Bool.not_eq_true']
+      exact ⟨⟨⟨⟨⟨hb.1.1, hb.1.2⟩, hrrd⟩, href⟩, hzq⟩, hb.2⟩
+    | pre =>
+      simp only [hcm, Option.some.injEq] at hev; subst hev
+      simpa [hcm, bAllowed, allowed, reqOf, agesOf] using hb
+    | cas ap =>
+      simp only [hcm, Option.some.injEq] at hev
+      have hst : casStrobeOf c s ins = true := by
+        rw [← any_isCas c hab]; apply hany isCas; rw [← hev]; split <;> rfl
+      have hra : (combOf c s ins).reqAccept = true := by
+        simp only [casStrobeOf, Bool.and_eq_true] at hst; exact hst.1
+      have hccd : ok m.cas c.tCCD = true := by simpa using txage_ready _ _ _ ht.mux.ccd (cas_gate c s ins hra)
+      have hrcd : ok (m.act j) c.bm.tRCD = true := by simpa [hcm, bAllowed, agesOf] using hb
+      cases hw : (reqJ c s ins j).isWrite
+      · -- read: only in the READ state
+        rw [hw] at hev; simp only [Bool.false_eq_true, if_false] at hev; subst hev
+        -- the accepted CAS is this bank machine's: it is the one granted by the request chooser
+        have hgj : s.grantReq = j := by
+          have hbr : bmReadyOf c s ins j = true := by
+            cases hbr : bmReadyOf c s ins j
+            · rw [cmdOfBm_eq, hbr] at hcm; cases hcm
+            · rfl
+          rw [bmReady_eq] at hbr
+          simp only [Bool.or_eq_true, Bool.and_eq_true, beq_iff_eq] at hbr
+          rcases hbr with ⟨_, e⟩ | ⟨hca, e⟩
+          · exact e
+          · exfalso
+            obtain ⟨_, _, hcf, _⟩ := cmd_accept_facts c hab s ins hca
+            rw [e] at hcf
+            have hbr2 : bmReadyOf c s ins j = true := by rw [bmReady_eq]; simp [hca, e]
+            have hv := bmReady_valid c hab s ins j hj hbr2
+            rw [cmdOfBm_eq, hbr2] at hcm
+            simp [classify, hv, hcf] at hcm
+            split at hcm <;> (try split at hcm) <;> cases hcm
+        have hrd : s.fsm = .read := by
+          obtain ⟨_, hact2, _, _, hcasf⟩ := comb_req c s ins hab hra
+          have hcj : (reqJ c s ins j).cas = true := by
+            have hbr2 : bmReadyOf c s ins j = true := by
+              cases hbr : bmReadyOf c s ins j
+              · rw [cmdOfBm_eq, hbr] at hcm; cases hcm
+              · rfl
+            have hv := bmReady_valid c hab s ins j hj hbr2
+            rw [cmdOfBm_eq, hbr2] at hcm
+            simp only [if_true, classify, hv] at hcm
+            cases hcc : (reqJ c s ins j).cas
+            · rw [hcc] at hcm; simp at hcm; split at hcm <;> (try split at hcm) <;> cases hcm
+            · rfl
+          rw [hgj] at hcasf
+          have := (hcasf hcj).2
+          rw [hw] at this
+          rcases hact2 with e | e
+          · exact e
+          · rw [e] at this; simp at this
+        have hwtr := ht.mux.rdOk hrd
+        simp [allowed, reqOf, hrcd, hccd, hwtr]
+      · rw [hw] at hev; simp only [if_true] at hev; subst hev
+        simp [allowed, reqOf, hrcd, hccd]
+  · -- the refresher's event
+    have hacc : (roOf c s).valid = true ∧ s.fsm = .refresh := by
+      simp only [rfEv] at hev
+      split at hev
+      · next h => simpa using h
+      · cases hev
+    rcases rfEv_kind c s e hev with h | h | h <;> subst h
+    · simp only [allowed, reqOf, List.all_eq_true, List.mem_range, Bool.and_eq_true]
+      intro b hb
+      exact ht.gnt hacc.2 b hb
+    · have := (RfTiming.rtinv_step c.rf hwf.wf2.base.rf s.rf g.pd (s.fsm == .refresh) m.prea m.ref m.zq hc.rf ht.rt
+        (fun hi => by simp [hc.inRef hi])).1 (Or.inl (by rw [← rfEv_eq]; exact hev))
+      simp [allowed, reqOf, this.1, this.2.1, this.2.2, ← hwf.rp]
+    · have := (RfTiming.rtinv_step c.rf hwf.wf2.base.rf s.rf g.pd (s.fsm == .refresh) m.prea m.ref m.zq hc.rf ht.rt
+        (fun hi => by simp [hc.inRef hi])).1 (Or.inr (by rw [← rfEv_eq]; exact hev))
+      simp [allowed, reqOf, this.1, this.2.1, this.2.2, ← hwf.rp]
+
+theorem wr_nostrobe (c : Controller.Cfg) (hab : 11 ≤ c.bm.abits) (s : State) (ins : Array BankIn) (h : s.fsm ≠ .write) :
+    wrStrobeOf c s ins = false := by
+  cases hw : wrStrobeOf c s ins
+  · rfl
+  · exact absurd (wr_only_in_write c hab s ins hw) h
+
+theorem tinv_step (c : Controller.Cfg) (hwf : WF3 c) (s : State) (g : Ghost) (ins : Array BankIn) (m : St)
+    (hc : CInv c s g) (hc' : CInv c (step c s ins).1 (gNext c s g ins)) (ht : TInv c s g m) :
+    TInv c (step c s ins).1 (gNext c s g ins) (advance (reqOf c) m (evsOf c s ins)) ∧
+    (((advance (reqOf c) m (evsOf c s ins)).win.filter id).length ≤ 4) := by
+  have hab := hwf.wf2.abits
+  have hexit : s.fsm = .refresh → (roOf c s).last = true → ok m.wrAny c.twtr = true := by
+    intro _ hl
+    obtain ⟨hv, hin⟩ := (out_last_valid c.rf s.rf).1 hl
+    exact (episode_end c hwf s g m hc ht hin hv).2.2
+  obtain ⟨hmux, hwin⟩ := minv_step c hab s ins m ht.mux hexit
+  obtain ⟨hp, hr, hz⟩ := adv_prea c s ins m (reqOf c)
+  have hrt := (RfTiming.rtinv_step c.rf hwf.wf2.base.rf s.rf g.pd (s.fsm == .refresh) m.prea m.ref m.zq hc.rf ht.rt
+        (fun hi => by simp [hc.inRef hi])).2
+  have hbmstep : ∀ j, j < c.nbm →
+      BInv c.bm (step c s ins).1.bms[j]! (agesOf (advance (reqOf c) m (evsOf c s ins)) j) ∧
+      ((BankMachine.step c.bm s.bms[j]! (bmIn c s ins j)).2.refreshGnt = true →
+        ok (m.act j) (c.bm.tRAS.getD 0) = true ∧ ok (m.wr j) c.bm.twtp = true) := by
+    intro j hj
+    obtain ⟨hp1, hp2⟩ := bm_hyps c hwf s g ins m hc ht j hj
+    obtain ⟨_, h2, h3⟩ := BmTiming.binv_step c.bm hwf.rpPos s.bms[j]! (bmIn c s ins j) (agesOf m j) (preaOf c s) (ht.bm j hj) hp1 hp2
+    rw [step_bms c s ins j hj, adv_bank c s ins m (reqOf c) j hj]
+    exact ⟨h2, h3⟩
+  refine ⟨⟨hmux, fun j hj => (hbmstep j hj).1, ?_, ?_, ?_, ?_, ?_⟩, hwin⟩
+  · rw [step_rf, hp, hr, hz, rfEv_eq]; exact hrt
+  all_goals
+    have hrf := rf_next_facts c.rf s.rf (s.fsm == .refresh)
+    have hpo : (rfEv c s == some .prea) = preaOf c s := by
+      rw [Bool.eq_iff_iff]; simp only [beq_iff_eq]; exact rfEv_prea c s
+    have hpdf : (gNext c s g ins).pd = true → s.fsm = .refresh ∧ (g.pd = true ∨ preaOf c s = true) := by
+      intro hpd
+      simp only [gNext, RefresherInv.pd', Bool.and_eq_true, Bool.or_eq_true] at hpd
+      obtain ⟨_, _, hcase⟩ := hrf.2 hpd.1
+      refine ⟨?_, hpd.2⟩
+      rcases hcase with ⟨_, hr⟩ | hr
+      · simpa using hr
+      · exact hc.inRef hr
+    have hnop : ∀ j, j < c.nbm → (s.bms[j]!).fsm = .refresh → cmdOfBm c s ins j = .nop := by
+      intro j hj hf
+      rw [cmdOfBm_eq]
+      have : (reqJ c s ins j).valid = false := by
+        simp only [reqJ, BankMachine.req, BankMachine.step, hf]; simp
+      simp [classify, this]
+    have hage : ∀ j, j < c.nbm → (s.bms[j]!).fsm = .refresh →
+        (advance (reqOf c) m (evsOf c s ins)).act j = tick (m.act j) ∧ (advance (reqOf c) m (evsOf c s ins)).wr j = tick (m.wr j) ∧
+        (advance (reqOf c) m (evsOf c s ins)).pre j = (if preaOf c s then some 1 else tick (m.pre j)) := by
+      intro j hj hf
+      have := adv_bank c s ins m (reqOf c) j hj
+      rw [hnop j hj hf] at this
+      simp only [agesOf, bAdvance, BAges.mk.injEq] at this
+      exact ⟨this.1, this.2.2.1, this.2.1⟩
+  · -- preEq'
+    intro hpd j hj
+    obtain ⟨hfr, hor⟩ := hpdf hpd
+    rw [(hage j hj (hc.muxRef hfr j hj)).2.2, hp, hpo]
+    cases hpa : preaOf c s
+    · rcases hor with h | h
+      · simp [RfTiming.upd, ht.preEq h j hj]
+      · rw [hpa] at h; cases h
+    · simp [RfTiming.upd]
+  · -- wrOld'
+    intro hpd t hok
+    obtain ⟨hfr, hor⟩ := hpdf hpd
+    rw [advance_wrAny, any_isWr c hab, wr_nostrobe c hab s ins (by rw [hfr]; simp)]
+    rw [hp, hpo] at hok
+    simp only [Bool.false_eq_true, if_false]
+    cases hpa : preaOf c s
+    · have hpdg : g.pd = true := by rcases hor with h | h; exact h; rw [hpa] at h; cases h
+      simp only [RfTiming.upd, hpa, Bool.false_eq_true, if_false] at hok
+      cases hm : m.prea with
+      | none =>
+        exact ok_tick _ _ (ht.wrOld hpdg t (by rw [hm]; rfl))
+      | some x =>
+        rw [hm] at hok
+        simp at hok
+        by_cases ht0 : t = 0
+        · subst ht0; cases m.wrAny <;> simp
+        · have h1 : ok m.prea (t - 1) = true := by rw [hm]; simp; omega
+          have h2 := ht.wrOld hpdg _ h1
+          have h3 := BmTiming.ok_tick_succ _ _ h2
+          have : t - 1 + 1 = t := by omega
+          rwa [this] at h3
+    · simp only [RfTiming.upd, hpa, if_true] at hok
+      simp at hok
+      cases hw : m.wrAny <;> simp; omega
+  · -- wrZq'
+    rw [step_rf, RefresherInv.step_fsm]
+    intro hz'
+    have hcase : (s.rf.fsm = .doRefresh ∧ Refresher.seqDone s.rf = true) ∨ s.rf.fsm = .doZqcs := by
+      unfold RefresherInv.fsmNext at hz'
+      cases hfs : s.rf.fsm <;> simp only [hfs] at hz'
+      · split at hz' <;> cases hz'
+      · split at hz' <;> cases hz'
+      · split at hz'
+        · next hsd => exact Or.inl ⟨rfl, hsd⟩
+        · cases hz'
+      · exact Or.inr rfl
+    have hin : RefresherInv.inRef s.rf.fsm = true := by rcases hcase with ⟨e, _⟩ | e <;> simp [RefresherInv.inRef, e]
+    have hfr := hc.inRef hin
+    rw [advance_wrAny, any_isWr c hab, wr_nostrobe c hab s ins (by rw [hfr]; simp)]
+    simp only [Bool.false_eq_true, if_false]
+    apply ok_tick
+    rcases hcase with ⟨e, hsd⟩ | e
+    · simp only [Refresher.seqDone, Bool.and_eq_true, beq_iff_eq] at hsd
+      have h4 := ht.rt.r4 e hsd.1
+      have hpdg : g.pd = true := by
+        have hfI := hc.rf.fsmI
+        simp only [e] at hfI
+        rcases hfI.2 with h | h
+        · exact h
+        · have := hc.rf.exDone0 hsd.1; omega
+      exact ht.wrOld hpdg _ h4
+    · exact ht.wrZq e
+  · -- gnt'
+    rw [step_fsm]
+    intro hn j hj
+    have hfacts : (s.bms[j]!).fsm = .refresh ∧ ok (m.act j) (c.bm.tRAS.getD 0) = true ∧ ok (m.wr j) c.bm.twtp = true := by
+      rcases (mux_next_refresh c s ins).mp hn with ⟨_, hgo⟩ | ⟨hr', _⟩
+      · have hall := goRefresh_all c s ins hgo
+        refine ⟨hall j hj, ?_⟩
+        apply (hbmstep j hj).2
+        rw [gnt_indep]
+        unfold goRefreshOf reqsOf at hgo
+        rw [all_map_range] at hgo
+        exact hgo j hj
+      · exact ⟨hc.muxRef hr' j hj, ht.gnt hr' j hj⟩
+    obtain ⟨e1, e2, _⟩ := hage j hj hfacts.1
+    rw [e1, e2]
+    exact ⟨ok_tick _ _ hfacts.2.1, ok_tick _ _ hfacts.2.2⟩
+
+theorem tinv_init (c : Controller.Cfg) (hwf : WF3 c) : TInv c (init c) g0 (St.init (reqOf c)) := by
+  have hb : ∀ i, i < c.nbm → (init c).bms[i]! = BankMachine.State.init c.bm := by
+    intro i hi
+    simp only [init]
+    rw [getElem!_pos _ _ (by simpa using hi)]
+    simp
+  refine ⟨minv_init c, ?_, RfTiming.rtinv_init c.rf, ?_, ?_, ?_, ?_⟩
+  · intro j hj
+    rw [hb j hj]
+    refine ⟨txage_init _, txage_init _, txage_init _, by simp [agesOf, St.init], ?_⟩
+    simp [BmTiming.FsmI, BankMachine.State.init, agesOf, St.init]
+  · intro h; simp [g0] at h
+  · intro h; simp [g0] at h
+  · intro h; simp [init, Refresher.init] at h
+  · intro h; simp [init] at h
+
+end CtlTiming
